@@ -129,9 +129,10 @@ func c06(c *core.Check) {
 	c06Rewind(c)
 	c06BadURL(c)
 	c06CommentEOF(c)
+	c06EscapeAtCursor(c)
 
 	// ---- R1 preprocessing
-	r1 := c.Rule("R1", "Tokenize preprocesses its input as CSS Syntax §3.3: U+0000 becomes U+FFFD, and CRLF, CR and FF become LF, the CRLF replacement coming before the CR one (otherwise CRLF becomes two newlines)", 5)
+	r1 := c.Rule("R1", "Tokenize preprocesses its input as CSS Syntax §3.3: U+0000 becomes U+FFFD, and CRLF, CR and FF become LF, the CRLF replacement coming before the CR one (otherwise CRLF becomes two newlines), each replacement running on every path (or skipped only when its own pattern is absent)", 9)
 	tz := p.Fn("css/parser", "Tokenize")
 	if tz == nil {
 		r1.Anchor("css/parser.Tokenize")
@@ -171,6 +172,54 @@ func c06(c *core.Check) {
 			r1.Cond(idx[f] > 0 && got == t, fmt.Sprintf("Tokenize | %q is replaced by %q", f, t), p.Pos(tz.Pos()), "replacement present", fmt.Sprintf("replaced by %q (0 = absent: %d)", got, idx[f]))
 		}
 		r1.Cond(idx["\r\n"] > 0 && idx["\r"] > 0 && idx["\r\n"] < idx["\r"], "Tokenize | CRLF is replaced before CR", p.Pos(tz.Pos()), "order CRLF, CR", "CR is replaced first: CRLF becomes two newlines")
+		// each replacement is unconditional, or skipped only when its own pattern is absent
+		for _, rp := range rs {
+			if _, wanted := want[rp.from]; !wanted {
+				continue
+			}
+			blk := rp.in.Block()
+			okGuard, why := true, "executed on every path"
+			for b := blk; b != nil && b.Idom() != nil; b = b.Idom() {
+				d := b.Idom()
+				ifi, isIf := d.Instrs[len(d.Instrs)-1].(*ssa.If)
+				if !isIf || d.Succs[0] == d.Succs[1] {
+					continue
+				}
+				// is blk reachable from both successors? then the test does not guard it
+				r0 := d.Succs[0] == blk || core.ForwardReach(d.Succs[0], nil, nil)[blk]
+				r1b := d.Succs[1] == blk || core.ForwardReach(d.Succs[1], nil, nil)[blk]
+				if r0 && r1b {
+					continue
+				}
+				// guarded: the condition must be a search for the same pattern
+				pat := ""
+				core.Instrs(tz, func(in ssa.Instruction) {
+					call, ok := in.(*ssa.Call)
+					if !ok || call.Call.StaticCallee() == nil || call.Block() != d {
+						return
+					}
+					switch call.Call.StaticCallee().Name() {
+					case "Contains", "Index":
+						if len(call.Call.Args) == 2 {
+							pat, _ = constBytes(call.Call.Args[1])
+						}
+					case "IndexByte", "ContainsRune", "IndexRune":
+						if len(call.Call.Args) == 2 {
+							if k, ok := core.ConstInt(call.Call.Args[1]); ok {
+								pat = string(rune(k))
+							}
+						}
+					}
+				})
+				_ = ifi
+				if pat != rp.from {
+					okGuard, why = false, fmt.Sprintf("skipped under a test that looks for %q, not for the replaced %q", pat, rp.from)
+				} else {
+					why = "skipped only when its own pattern is absent"
+				}
+			}
+			r1.Cond(okGuard, fmt.Sprintf("Tokenize | the replacement of %q is unconditional", rp.from), p.Pos(rp.in.Pos()), why, "the replacement is "+why+": input that contains the pattern can reach the tokenizer unprocessed")
+		}
 	}
 
 	// ---- R2 code point classes
